@@ -401,7 +401,7 @@ func init() {
 	core.Register(&core.Monitor{
 		ID: "C18", Level: "fault_enumeration", Plan: plan, Run: run, Terminates: true, CaseTimeout: 300e9,
 		Rule: "messages {header-only update, heavily compressible, 254..512 additional records, pool names, all registry types} x Compress on/off x RSASHA1/256/512, ECDSA P-256/P-384, Ed25519; oracle = independent RFC 2931 verification (model walk + Go crypto): Sign must succeed, output = packed message || SIG with ARCOUNT+1, verifies independently and with Verify (original and re-decoded SIG); " +
-			"every single-bit flip of the message part and the SIG RDATA (signed messages <= 220 octets; 256 sampled bits incl. the whole header above), other key, other signer name, windows entirely in the past/future (>= 1 h from the real clock), every truncation point >= 12 (<= 400 octets; ~300 sampled above), 60 structure-aware mutations; Verify==nil implies the model accepts; no panic; " +
+			"every single-bit flip of the message part and the SIG RDATA (signed messages <= 220 octets; 256 sampled bits incl. the whole header above), other key, other signer name (incl. one differing by 0x20 in a non-letter), windows entirely in the past/future and empty windows with expiration before inception (>= 1 h from the real clock), a second message signed with the same SIG value, every truncation point >= 12 (<= 400 octets; ~300 sampled above), 60 structure-aware mutations; Verify==nil implies the model accepts; no panic; " +
 			"non-trivial = distinct signed message",
 		Assumptions: []string{"SIG.Verify reads the wall clock: windows are placed at least one hour from it, the exact boundary second is not decided", "bits of the SIG RR's own owner/type/class/TTL/RDLENGTH are outside the statement ('the message or the SIG RDATA')"},
 		MinObserved: []string{"signed", "alterations_rejected", "exhaustive_bitflip_messages", "exhaustive_truncation_messages", "truncations", "window_checks", "key_alterations"},
